@@ -111,8 +111,7 @@ data_t Vector::norm(index_t p)
     for (index_t i = 0; i < size(); i++)
     {
         val = values[i];
-        if (!(fabs(val) <= zero_tol))
-            result += pow(val, p);
+        result += pow(val, p);
     }
     return pow(result, 1.0/p);
 }
